@@ -379,7 +379,14 @@ template <class P> struct H {
             sinth = std::sqrt(cx * cx + cy * cy + cz * cz) / std::sqrt((LD)vj[0] * vj[0] + (LD)vj[1] * vj[1] + (LD)vj[2] * vj[2]);
         }
         vh::Line in = vh::I(fn("twoAxes")); putV(in, v); in.d(ai); putV(in, vj); in.d(aj); in.emit();
-        if (isF()) std::printf("T %.3g %.3g\n", 2e-5 / (double)std::max(sinth, (LD)1e-6), 2e-6 / (double)std::max(sinth, (LD)1e-6));
+        // float, sin^2 within the rounding noise of the float cross product (|u x vj|^2 carries an absolute error of
+        // ~eps_float, larger than the fallback threshold SqrtEps(double) = 1.5e-8): which branch Rotation.cpp takes
+        // (regular formula or setRotationFromOneAxis) is decided by rounding noise, so the exact model cannot predict the
+        // third axis; the record is then judged by the property predicates only (proper rotation, axis column) and the
+        // tie with the model is switched off.  Counted by a D tag.
+        bool noiseBand = isF() && cls == "nearparallel" && (double)(sinth * sinth) < 64.0 * (double)eps();
+        if (noiseBand) { std::printf("T 8 8\n"); vh::D("twoAxesF.nearparallel.branch_noise_band.tie_skipped"); }
+        else if (isF()) std::printf("T %.3g %.3g\n", 2e-5 / (double)std::max(sinth, (LD)1e-6), 2e-6 / (double)std::max(sinth, (LD)1e-6));
         vh::Line o = vh::O(fn("twoAxes")); putM(o, R.asMat33()); o.emit();
         vh::D(fn("twoAxes") + "." + cls);
         std::string key = fn("twoAxes") + "." + cls;
